@@ -373,49 +373,80 @@ theorem det_flat (A : List Blk) :
     simp only [List.map_cons, List.map_nil, List.flatMap_cons, List.flatMap_nil, List.append_nil]
     rw [List.map_reverse, posTxs_map_tx]
 
-/-- **Reorganisation lands where the new main chain prescribes.**  `P` common prefix (from
-    genesis), `A` the branch being left, `B` the branch being adopted; both `P ++ A` and
-    `P ++ B` were/are acceptable to a node that only ever extends its chain. -/
-theorem reorg_good {p : Params} {kindOf : Nat → OutKind} {P A B : List Blk} {dP dA dB : View}
-    (hP : replayU p P [] = some dP) (hA : replayU p A dP = some dA) (hB : replayU p B dP = some dB)
-    (hwA : WF (flat (P ++ A))) (hwB : WF (flat (P ++ B))) (hk : KindsOK kindOf (flat (P ++ A))) :
-    ∃ v2, reorgView p kindOf dA B (A.reverse.map (·.2)) = some v2 ∧
-      Good (flat (P ++ B)) (vget (saveView dA v2)) ∧ Good (flat (P ++ B)) (vget dB) := by
-  rw [flat_append] at hwA hwB hk
-  have hw0 : WF ([] ++ flat P) := by simpa using (wf_append hwA).1
-  have g0 : Good [] (vget ([] : View)) := by rw [vget_nil_eq]; exact good_nil
-  obtain ⟨gP, sP⟩ := replayU_good g0 (by trivial : Struct []) hw0 hP
-  simp only [List.nil_append] at gP sP
-  obtain ⟨gA, sA⟩ := replayU_good gP sP hwA hA
-  obtain ⟨gB, _⟩ := replayU_good gP sP hwB hB
-  -- detach
+/-- detach half: from any state the chain `P ++ A` prescribes, detaching `A` (tip first)
+    succeeds and leaves a state the chain `P` prescribes -/
+theorem reorg_detach {kindOf : Nat → OutKind} {P A : List Blk} {dA : View}
+    (gA : Good (flat (P ++ A)) (vget dA)) (sA : Struct (flat (P ++ A))) (hwA : WF (flat (P ++ A)))
+    (hk : KindsOK kindOf (flat (P ++ A))) :
+    ∃ σ1, detachListF kindOf ((A.reverse.map (·.2)).flatMap List.reverse) (vget dA) = some σ1 ∧
+      Good (flat P) σ1 ∧ Struct (flat P) := by
+  rw [flat_append] at gA sA hwA hk
   have e : flat A = ((flat A).reverse).reverse := by simp
+  have sP : Struct (flat P) := struct_append_left sA
   rw [e] at gA sA hwA hk
   obtain ⟨σ1, hd, g1⟩ := good_detachList gA sA hwA hk
-  -- attach
+  exact ⟨σ1, by rw [det_flat]; exact hd, g1, sP⟩
+
+/-- **A reorganisation lands where the new main chain prescribes, and is refused exactly when
+    a replay of the new main chain is refused.**  `P` common prefix (from genesis), `A` the
+    branch being left, `B` the branch being adopted; `dA` is any persisted table the chain
+    `P ++ A` prescribes (however the node got there), `dP` the table after replaying `P`. -/
+theorem reorg_general {p : Params} {kindOf : Nat → OutKind} {P A B : List Blk} {dP dA : View}
+    (hP : replayU p P [] = some dP)
+    (gA : Good (flat (P ++ A)) (vget dA)) (sA : Struct (flat (P ++ A)))
+    (hwA : WF (flat (P ++ A))) (hwB : WF (flat (P ++ B))) (hk : KindsOK kindOf (flat (P ++ A))) :
+    match reorgView p kindOf dA B (A.reverse.map (·.2)), replayU p B dP with
+    | some v2, some dB =>
+        Good (flat (P ++ B)) (vget (saveView dA v2)) ∧ Struct (flat (P ++ B)) ∧ Good (flat (P ++ B)) (vget dB)
+    | none, none => True
+    | _, _ => False := by
+  obtain ⟨σ1, hd, g1, sP⟩ := reorg_detach gA sA hwA hk
+  have hwP : WF ([] ++ flat P) := by
+    rw [flat_append] at hwA; simpa using (wf_append hwA).1
+  have g0 : Good [] (vget ([] : View)) := by rw [vget_nil_eq]; exact good_nil
+  obtain ⟨gP, _⟩ := replayU_good g0 (by trivial : Struct []) hwP hP
+  simp only [List.nil_append] at gP
   have hseq : SEq σ1 (vget dP) := good_seq g1 gP
   have h2 := applyListF_seq p (flat B) hseq
   have h3 := replayU_flat p B dP
-  rw [hB] at h3
-  cases hb : applyListF p (flat B) (vget dP) with
-  | none => rw [hb] at h3; exact False.elim h3
-  | some y =>
-    rw [hb] at h2
-    cases ha : applyListF p (flat B) σ1 with
-    | none => rw [ha] at h2; exact False.elim h2
-    | some σ2 =>
-      obtain ⟨g2, _⟩ := good_applyList g1 sP hwB ha
-      have hsem := reorgView_sem p kindOf dA B (A.reverse.map (·.2))
-      rw [det_flat, hd] at hsem
-      simp only [Option.bind_some, ha] at hsem
+  have hsem := reorgView_sem p kindOf dA B (A.reverse.map (·.2))
+  rw [hd] at hsem
+  simp only [Option.bind_some] at hsem
+  rw [flat_append] at hwB
+  cases ha : applyListF p (flat B) σ1 with
+  | none =>
+    rw [ha] at h2 hsem
+    have hv : reorgView p kindOf dA B (A.reverse.map (·.2)) = none := by
       cases hv : reorgView p kindOf dA B (A.reverse.map (·.2)) with
-      | none => rw [hv] at hsem; simp at hsem
-      | some v2 =>
-        rw [hv] at hsem
-        simp only [Option.map_some, Option.some.injEq] at hsem
-        refine ⟨v2, rfl, ?_, by rw [flat_append]; exact gB⟩
-        rw [flat_append]
-        apply good_save (reorgView_nodup hv)
-        rw [hsem]; exact g2
+      | none => rfl
+      | some v => rw [hv] at hsem; simp at hsem
+    rw [hv]
+    cases hb : applyListF p (flat B) (vget dP) with
+    | some y => rw [hb] at h2; exact False.elim h2
+    | none =>
+      rw [hb] at h3
+      cases hc : replayU p B dP with
+      | none => trivial
+      | some z => rw [hc] at h3; exact False.elim h3
+  | some σ2 =>
+    rw [ha] at h2 hsem
+    cases hv : reorgView p kindOf dA B (A.reverse.map (·.2)) with
+    | none => rw [hv] at hsem; simp at hsem
+    | some v2 =>
+      rw [hv] at hsem
+      simp only [Option.map_some, Option.some.injEq] at hsem
+      cases hb : applyListF p (flat B) (vget dP) with
+      | none => rw [hb] at h2; exact False.elim h2
+      | some y =>
+        rw [hb] at h3
+        cases hc : replayU p B dP with
+        | none => rw [hc] at h3; exact False.elim h3
+        | some dB =>
+          obtain ⟨g2, s2⟩ := good_applyList g1 sP hwB ha
+          obtain ⟨gB, _⟩ := replayU_good gP sP hwB hc
+          refine ⟨?_, by rw [flat_append]; exact s2, by rw [flat_append]; exact gB⟩
+          rw [flat_append]
+          apply good_save (reorgView_nodup hv)
+          rw [hsem]; exact g2
 
 end BytomModel.Lemmas.Ledger
